@@ -8,10 +8,7 @@ use markers;
 use std::collections::HashMap;
 use std::io::Read;
 use Amf0Value;
-
-/// Arrays and objects can be nested, and each level of nesting is parsed recursively.  To keep
-/// the stack usage bounded on untrusted input, deeper nesting than this is reported as an error.
-const MAX_NESTING_DEPTH: usize = 128;
+use MAX_NESTING_DEPTH;
 
 struct ObjectProperty {
     label: String,
